@@ -3,11 +3,35 @@ PID = 'C11'
 SPEC = dict(
     driver='c11_history',
     extra=['ref/ref.c', 'ref/ref_sig.c', 'ref/ref_pdu.c', 'ref/ref_pki.c', 'simnet.c'],
-    rule='placeholder',
-    bounds=dict(quick='placeholder', thorough='placeholder'),
-    technique='placeholder',
-    level_text='placeholder',
-    level_note='placeholder',
-    require_outcomes=[],
-    assumptions=[],
+    rule='Exhaustive enumeration of operation histories on ONE shared KSI_CTX. A history = parse(s0), s0 in 4 canonical reference-built signatures (no calendar chain / '
+         'calendar chain / + publication record / + authentication record signed with the test PKI; first level corrections 3, 7, 3, 3), followed by EVERY applicable '
+         'sequence of at most L operations over a 261-letter alphabet (an operation is applicable when the slot it names holds a live signature; at most 3 live '
+         'signatures, a new one replaces the oldest): parse(s) x4; parse(garbage) x3 (truncated, wrong outer tag, inconsistent chain index); log level none / debug '
+         '(discarding callback); per slot: clone; serialize; verify(policy in {internal, user-publication, publications-file, key-based, calendar-based, general} x '
+         'document hash {none, matching, other} x level {0, 1, 200, 300}) with an honest extender plus calendar-based verification with an extender that answers an error '
+         'status / another input hash; extend with extender {correct, error status, other input hash}; prepend a local aggregation chain at start level {0, 3, 250} '
+         '(builder: setAggregationChainStartLevel + appendAggregationChain + close, as the SDK block signer does; the caller-held chain object is re-used after a '
+         'prepend that was refused before the chain was touched); add root level {2, 300} (builder close). One case per sequence, named by the operation indices '
+         '(h:<s0>.<op>.<op>...). Oracle after EVERY operation: every live signature serializes to exactly the bytes it was created with (parsed bytes; clone = source; '
+         'derived signature = its first serialization); every verdict (return code, finalResult.resultCode, errorCode) and every derivation (return code, bytes of the '
+         'derived signature) equals the result of the same call on a FRESH context with a freshly parsed copy (tabulated lazily, cache keyed by signature bytes and '
+         'parameters); garbage must be refused; the context\'s last-failed signature must stay serializable; at the end no SDK allocation may stay live; ASan/UBSan silent.',
+    bounds=dict(quick='all applicable sequences of <= 2 operations after parse(s0) over the full alphabet (37 324 histories) + all of exactly 3 operations over the '
+                      '30-letter sub-alphabet that touches caches and state (24 203 histories)',
+                thorough='all applicable sequences of <= 3 operations after parse(s0) over the full alphabet (4 115 332 histories) + all of exactly 4 operations over the '
+                         'sub-alphabet (581 637 histories)'),
+    technique='bounded-exhaustive history enumeration on the real compiled code (ASan+UBSan) with a differential oracle: state reached from elsewhere vs. fresh context',
+    level_text='Every history up to the depth bound is executed on one shared context; after each operation all live signatures are re-serialized and compared byte for byte, '
+               'and every verification verdict / derived signature is compared with the same call on a fresh context, so any state that leaks between operations '
+               '(memoised chain outputs keyed by start level, the last-failed-signature reference, the data-hash recycle pool, results cached inside the signature '
+               'object, builder write-backs into shared sub-objects) and changes an observable result within the bound is reported together with the operation history.',
+    level_note='Trusted: reference signature / PDU / PKI models, OpenSSL, simulated transport. The fresh-context results are produced by the same library build, so a defect '
+               'that is independent of history (same wrong answer on a fresh context) is out of scope here (C01-C04, C08 judge absolute correctness). Histories longer '
+               'than the bound and alphabets beyond the stated one are not covered.',
+    require_outcomes=['parse:ok', 'garbage:*:refused', 'clone:ok', 'serialize:ok', 'log:debug', 'verify:*:OK', 'verify:*:FAIL', 'verify:*:NA', 'verify:*:error',
+                      'verify:key:OK', 'verify:calendar:OK', 'verify:userpub:OK', 'verify:pubfile:OK', 'verify:general:OK',
+                      'extend:ok', 'extend:error', 'prepend:ok', 'prepend:error', 'prepend:retry-with-held-chain:ok', 'addroot:ok', 'addroot:error'],
+    assumptions=['the fake transport delivers exactly what the handler produced',
+                 'a caller may re-use its local aggregation chain object after KSI_SignatureBuilder_appendAggregationChain refused it without modifying it'],
+    deadline=dict(quick=1500, thorough=7200),
 )
